@@ -195,6 +195,79 @@ func factsAtBlockSubst(blk *ssa.BasicBlock, subst map[*ssa.Parameter]string, dep
 			out = append(out, condAtoms(ifi.Cond, false, subst, ifi, depth)...)
 		}
 	}
+	// invariants of the phis of blk and of the blocks dominating it (rotated loops: `for i := range n` tests
+	// 0 < n before the loop and i+1 < n at its bottom, so no single branch dominating the body says i < n)
+	if subst == nil && depth == 0 {
+		for d := blk; d != nil; d = d.Idom() {
+			for _, in := range d.Instrs {
+				phi, ok := in.(*ssa.Phi)
+				if !ok {
+					break
+				}
+				out = append(out, phiInvariants(phi)...)
+			}
+		}
+	}
+	return out
+}
+
+// phiInvariants: comparison atoms that hold for a phi because, on every incoming edge, the branch taken into the
+// phi's block states the same comparison about the incoming value (`0 < n` on the entry edge, `i+1 < n` on the
+// back edge give `i < n`).  Only the condition of the predecessor's own branch is used, so the derivation does
+// not depend on other facts.
+func phiInvariants(phi *ssa.Phi) []Atom {
+	if len(phi.Edges) < 2 {
+		return nil
+	}
+	if bt, ok := phi.Type().Underlying().(*types.Basic); !ok || bt.Info()&types.IsInteger == 0 {
+		return nil
+	}
+	mirror := map[string]string{"<": ">", ">": "<", "<=": ">=", ">=": "<=", "==": "==", "!=": "!="}
+	var common map[string]Atom
+	for i, e := range phi.Edges {
+		pred := phi.Block().Preds[i]
+		if len(pred.Instrs) == 0 {
+			return nil
+		}
+		ifi, ok := pred.Instrs[len(pred.Instrs)-1].(*ssa.If)
+		if !ok || len(pred.Succs) != 2 || pred.Succs[0] == pred.Succs[1] {
+			return nil
+		}
+		ee := Expr(e)
+		if k, isC := constInt(e); isC {
+			ee = strconv.FormatInt(k, 10)
+		}
+		here := map[string]Atom{}
+		for _, a := range condAtoms(ifi.Cond, pred.Succs[0] == phi.Block(), nil, ifi, 1) {
+			switch {
+			case a.L == ee:
+				here[a.Op+" "+a.R] = Atom{L: Expr(phi), Op: a.Op, R: a.R}
+			case a.R == ee && mirror[a.Op] != "":
+				here[mirror[a.Op]+" "+a.L] = Atom{L: Expr(phi), Op: mirror[a.Op], R: a.L}
+			}
+		}
+		if common == nil {
+			common = here
+		} else {
+			for k := range common {
+				if _, ok := here[k]; !ok {
+					delete(common, k)
+				}
+			}
+		}
+		if len(common) == 0 {
+			return nil
+		}
+	}
+	var out []Atom
+	for _, a := range common {
+		// the bound must not itself depend on the phi
+		if strings.Contains(a.R, Expr(phi)) {
+			continue
+		}
+		out = append(out, a)
+	}
+	sort.Slice(out, func(i, j int) bool { return out[i].String() < out[j].String() })
 	return out
 }
 
